@@ -44,16 +44,16 @@ func evalC01(os openSet, rec *hx.Rec) error {
 	if perr != nil || proof == nil {
 		return fmt.Errorf("CreateMultiProof returned error %v for an honest opening set", perr)
 	}
-	for i := range b.Cs {
-		got := hx.FromImpl(b.Cs[i])
-		if !hx.G.IsValid(got) || !hx.G.Equal(got, b.CsRef[i]) {
-			return fmt.Errorf("commitment %d is no longer the same group element after CreateMultiProof", i)
-		}
+	// The verifier is given the statement as the property states it: commitment_i = Commit(f_i) in the generated
+	// representation and sharing pattern, rebuilt from the reference-side copy — not the objects the prover was handed.
+	fresh, ferr := os.build()
+	if ferr != nil {
+		return ferr
 	}
 	trv := common.NewTranscript(os.Label)
 	var ok bool
 	var verr error
-	if e := hx.Try(func() { ok, verr = multiproof.CheckMultiProof(trv, cfg, proof, b.Cs, b.ys, b.zs) }); e != nil {
+	if e := hx.Try(func() { ok, verr = multiproof.CheckMultiProof(trv, cfg, proof, fresh.Cs, fresh.ys, fresh.zs) }); e != nil {
 		return fmt.Errorf("CheckMultiProof: %w", e)
 	}
 	if !ok || verr != nil {
